@@ -726,6 +726,30 @@ def tree_group_family(seed, n, maxlen=4, budget=6000, kinds=("alt", "adj", "acmd
     return out
 
 
+def acmd_alt_family(seed, n, maxlen=4, budget=6000):
+    """a repeated choice between adjacent subcommands (`construct!([build, test, clean]).many()`), some of which take
+    no items of their own: one value per command typed, in command-line order"""
+    rnd = random.Random(seed)
+    out = []
+    while len(out) < n:
+        i = len(out)
+        pool = [lambda: adjf("g0", "many", cmdhead("h0", "build")),
+                lambda: adjf("g1", "many", cmdhead("h1", "test"), sw("a", "-a")),
+                lambda: adjf("g2", "many", cmdhead("h2", "clean", "cl")),
+                lambda: adjf("g3", "many", cmdhead("h3", "run"), ar("b", "opt", "int", "-b"), posm("x"))]
+        picks = [pool[(i + j) % 4]() for j in range(2 + i % 2)]
+        for g in picks:
+            g["joined"] = "J"
+        others = [sw("o1", "-v")] if i % 3 == 0 else []
+        d = mkdef(f"acmdalt{seed}_{i}", level(others + picks, NOTAIL), maxlen=maxlen, extras=rnd.choice([("unk",), ("help",), ()]),
+                  spells=("sep",), words=("1",))
+        d["alpha"]["words"] = list(dict.fromkeys(["1"] + [g["head"]["names"][0] for g in picks]))
+        galpha_trim(d, budget)
+        d["alpha"]["words"] = list(dict.fromkeys(d["alpha"]["words"] + [g["head"]["names"][0] for g in picks]))
+        out.append(d)
+    return out
+
+
 def galphabet_size(d):
     a = d["alpha"]
     n = len(a["extras"]) + len(a["words"])
